@@ -436,12 +436,16 @@ func variants(thorough bool) []sx.Variant {
 		ps = append(ps, pv{params{Scen: "hb", Dialect: d}, 2})
 	}
 	ps = append(ps, pv{params{Scen: "hb", Dialect: "std", Disable: true}, 1})
-	depth := 3
-	if thorough {
-		depth = 4
+	// stream-request histories: the longest histories at bound 0, shorter ones with schedule
+	// deviations
+	if !thorough {
+		ps = append(ps, pv{params{Scen: "sr", Dialect: "std", Depth: 3}, 0})
+		ps = append(ps, pv{params{Scen: "sr", Dialect: "std", Depth: 2}, 1})
+	} else {
+		ps = append(ps, pv{params{Scen: "sr", Dialect: "std", Depth: 4}, -1}) // -1: bound 0 also in thorough
+		ps = append(ps, pv{params{Scen: "sr", Dialect: "std", Depth: 3}, 0})  // +1 below
+		ps = append(ps, pv{params{Scen: "sr", Dialect: "std", Depth: 2}, 1})
 	}
-	ps = append(ps, pv{params{Scen: "sr", Dialect: "std", Depth: depth}, 0})
-	ps = append(ps, pv{params{Scen: "sr", Dialect: "std", Depth: 2}, 1})
 	ps = append(ps, pv{params{Scen: "sr", Dialect: "std", Depth: 2, Disable: true}, 0})
 	ps = append(ps, pv{params{Scen: "sr", Dialect: "nords", Depth: 2}, 0})
 	ps = append(ps, pv{params{Scen: "sr", Dialect: "oddhb", Depth: 2}, 0})
@@ -451,6 +455,9 @@ func variants(thorough bool) []sx.Variant {
 		b := x.bound
 		if thorough {
 			b++
+		}
+		if b < 0 {
+			b = 0
 		}
 		out = append(out, sx.Variant{
 			Name: p.name(), Class: "auto", MaxSteps: 60000, MaxTime: 60 * time.Minute, Bound: b, Shards: 16,
